@@ -935,6 +935,11 @@ where
             _ => return,
         };
 
+        // (the map guard is released: between this check and the rest of the function
+        // other threads may write or remove the key)
+        #[cfg(mini_moka_verif)]
+        crate::verif::point("m.w2");
+
         if self.has_expiry() || self.has_valid_after() {
             let (ttl, tti, va) = (
                 &self.time_to_live(),
@@ -957,6 +962,8 @@ where
                     _old_weight as u64,
                     new_weight as u64,
                 );
+                #[cfg(mini_moka_verif)]
+                crate::verif::point("m.w3");
                 self.cache
                     .remove_if(&kh.key, |_, v| TrioArc::ptr_eq(v, &entry));
                 return;
@@ -998,6 +1005,8 @@ where
                     new_weight as u64,
                 );
                 // Remove the candidate, but not a newer value of the same key.
+                #[cfg(mini_moka_verif)]
+                crate::verif::point("m.w3");
                 self.cache
                     .remove_if(&kh.key, |_, v| TrioArc::ptr_eq(v, &entry));
                 return;
@@ -1061,6 +1070,8 @@ where
                 skipped_nodes = s;
                 // Remove the candidate from the cache (hash map).
                 // Remove the candidate, but not a newer value of the same key.
+                #[cfg(mini_moka_verif)]
+                crate::verif::point("m.w3");
                 self.cache
                     .remove_if(&kh.key, |_, v| TrioArc::ptr_eq(v, &entry));
             }
